@@ -158,3 +158,8 @@ package mat
 //@     invariant len(sol) == numVars
 //@   loop range(pivotCols)
 //@     invariant len(sol) == numVars
+
+//@ func (*MatrixGroupElementTrait).IsColumnVector
+//@   property C05, C20
+//@   purefn
+//@   ensures result == (m.n == 1)
